@@ -1518,7 +1518,112 @@ def std_cell(case):
     return {'calls': calls, 'viol': viol, 'parts': parts, 'npts': len(mulc.get('pts', (0, []))[1])}
 
 # ------------------------------------------------------------------------------------------------ driver
-CELLS = {'group': group_cell, 'scalar': scalar_cell, 'addmul': addmul_cell, 'isonsweep': ison_sweep_cell, 'ison': ison_cell,
+
+# ------------------------------------------------------------------------------------------------ curve / group validators
+def validator_curves(tier):
+    """prime-field curves for the group validators: for p in {251, 1021 (, 65521)} the curves y^2 = x^3 + a x + b, a in {p - 3, 1, 2},
+    b = 1.. until a stated number of curves with a prime-order subgroup q > 3 has been found; the embedding degree of each is known"""
+    out = []
+    for p, cnt in ((251, 8), (1021, 6 if tier == 'quick' else 16)) + (((65521, 6),) if tier == 'thorough' else ()):
+        for a in (p - 3, 1, 2):
+            k = 0
+            for b in range(1, p):
+                E = RP.Curve(p, a, b)
+                if not E.is_nonsingular():
+                    continue
+                out.append((p, a, b)); k += 1
+                if k >= cnt:
+                    break
+    return out
+
+def validators_cell(case):
+    """ecpIsValid / ecpSeemsValidGroup / ecpIsSafeGroup (ecp.h) on small curves whose group the reference knows completely:
+    safe group <=> order prime, order != p, and p^i != 1 (mod order) for all i <= mov_threshold, i.e. mov_threshold < embedding degree"""
+    c = get_ctx(case['cfg'], case['spec'])
+    L, n, W, no, E = c.L, c.n, c.W, c.no, c.E
+    p = c.size
+    viol = []; calls = 0
+    def bad(key, msg, **kw):
+        if all(key != v[0] for v in viol):
+            viol.append(('ecp:validators:' + key, {'cfg': c.cfg, 'kind': 'cell', 'case': jcase(case)}, '%s [%s, cfg %s]' % (msg, spec_str(c.spec), c.cfg)))
+    N = E.group_order()
+    fac = factor(N)
+    q = max(fac)
+    h = N // q
+    # a point of order q
+    G = None
+    for x in range(p):
+        for R in E.lift_x(x):
+            T = E.mul(h, R)
+            if T is not None and E.mul(q, T) is None:
+                G = T; break
+        if G:
+            break
+    if G is None:
+        return {'calls': 0, 'viol': []}
+    def mkgroup(T, base, order, cof):
+        xb, yb = T.buf(base[0].to_bytes(no, 'little')), T.buf(base[1].to_bytes(no, 'little'))
+        ol = max(1, (order.bit_length() + 7) // 8)
+        return L.boolean('ecCreateGroup', c.ec, xb, yb, T.buf(order.to_bytes(ol, 'little')), ol, cof, gbuf(T, L.sz('ecCreateGroup_deep', c.fdeep)))
+    with vf.Arena(L) as T:
+        st_v = gbuf(T, L.sz('ecpIsValid_deep', n, c.fdeep))
+        st_g = gbuf(T, L.sz('ecpSeemsValidGroup_deep', n, c.fdeep))
+        st_s = gbuf(T, L.sz('ecpIsSafeGroup_deep', n))
+        def guards(what):
+            for nm, b in (('ecpIsValid_deep', st_v), ('ecpSeemsValidGroup_deep', st_g), ('ecpIsSafeGroup_deep', st_s)):
+                if gbad(b):
+                    bad('stack:' + nm, '%s wrote past %s octets of its stack' % (what, nm))
+        if not mkgroup(T, G, q, h):
+            return {'calls': 1, 'viol': [('ecp:validators:ecCreateGroup', {'cfg': c.cfg, 'kind': 'cell', 'case': jcase(case)}, 'ecCreateGroup refused a valid group [%s]' % spec_str(c.spec))]}
+        calls += 1
+        if not L.boolean('ecpIsValid', c.ec, st_v):
+            bad('ecpIsValid:valid-rejected', 'ecpIsValid = FALSE for a non-singular curve over a prime field')
+        if not L.boolean('ecpSeemsValidGroup', c.ec, st_g):
+            bad('ecpSeemsValidGroup:valid-rejected', 'ecpSeemsValidGroup = FALSE for the true (base, order %d, cofactor %d)' % (q, h))
+        calls += 2
+        # safe group: prime order q != p and mov_threshold below the embedding degree
+        if q != p and q > 3 and RP.is_prime(q):
+            k = 1; t = p % q
+            while t != 1:
+                t = t * p % q; k += 1
+            for mov in sorted(set([0, 1, 2, k - 2, k - 1, k, k + 1, k + 5, 2 * k]) & set(range(0, 4000))):
+                got = L.boolean('ecpIsSafeGroup', c.ec, mov, st_s); calls += 1
+                exp = int(mov < k)
+                if got != exp:
+                    bad('ecpIsSafeGroup:%s' % ('unsafe-accepted' if got else 'safe-rejected'),
+                        'ecpIsSafeGroup(order %d, mov_threshold %d) = %d; the order divides p^%d - 1 and no smaller power (ecp.h: rejected iff i <= mov_threshold exists)' % (q, mov, got, k))
+        elif q == p:
+            if L.boolean('ecpIsSafeGroup', c.ec, 0, st_s):
+                bad('ecpIsSafeGroup:anomalous-accepted', 'ecpIsSafeGroup accepts order = p (anomalous curve)')
+            calls += 1
+        guards('a validator on the true group')
+        # composite order: the whole group (cofactor 1) when N is composite and a point of order N exists; else order q * h' ...
+        if h > 1:
+            for x in range(p):
+                Rs = E.lift_x(x)
+                if Rs and E.mul(N, Rs[0]) is None and all(E.mul(N // f, Rs[0]) is not None for f in fac):
+                    if mkgroup(T, Rs[0], N, 1):
+                        if L.boolean('ecpIsSafeGroup', c.ec, 0, st_s):
+                            bad('ecpIsSafeGroup:composite-order-accepted', 'ecpIsSafeGroup accepts the composite order %d' % N)
+                        calls += 2
+                    break
+        # Hasse bound: an order far outside [p + 1 - 2 sqrt p, p + 1 + 2 sqrt p]
+        for fake in (q * h + 4 * int(p ** 0.5) + 8, max(1, q * h - 4 * int(p ** 0.5) - 8)):
+            if mkgroup(T, G, fake, 1):
+                if L.boolean('ecpSeemsValidGroup', c.ec, st_g):
+                    bad('ecpSeemsValidGroup:hasse', 'ecpSeemsValidGroup accepts order * cofactor = %d for p = %d (Hasse interval violated)' % (fake, p))
+                calls += 2
+        # base point off the curve
+        off = next(((x, y) for x in range(1, p) for y in range(1, 3) if not E.is_on((x, y))), None)
+        if off and mkgroup(T, off, q, h):
+            if L.boolean('ecpSeemsValidGroup', c.ec, st_g):
+                bad('ecpSeemsValidGroup:base-off-curve', 'ecpSeemsValidGroup accepts the base point %s which is not on the curve' % (off,))
+            calls += 2
+        guards('a validator on an altered group')
+        mkgroup(T, G, q, h)
+    return {'calls': calls, 'viol': viol}
+
+CELLS = {'validators': validators_cell, 'group': group_cell, 'scalar': scalar_cell, 'addmul': addmul_cell, 'isonsweep': ison_sweep_cell, 'ison': ison_cell,
          'swu': swu_cell, 'std': std_cell}
 
 def run_cell(case):
@@ -1637,6 +1742,9 @@ def all_cases(tier, tables_out):
     for spec in swu_curves(tier):
         for cfg in CFGS:
             cases.append({'kind': 'swu', 'cfg': cfg, 'spec': spec, 's': 'all', 'nU': spec[1], 'bits': 10})
+    for p, a, b in validator_curves(tier):
+        for cfg in CFGS:
+            cases.append({'kind': 'validators', 'cfg': cfg, 'spec': ('p', p, a, b), 'nU': 40, 'bits': 16})
     import g12s as RG, dstu as RD
     for fam, name in std_list(tier):
         r = ref_params(fam, name)
